@@ -7,6 +7,7 @@ import (
 	"log/slog"
 	"net"
 	"os"
+	"runtime"
 	"sort"
 	"strings"
 	"sync"
@@ -273,6 +274,7 @@ func makeCipherList(es []cfgEntry) (service.CipherList, error) {
 // ---------------------------------------------------------------- the engine
 
 type udpCase struct {
+	fd0 int // open descriptors when the case started
 	out      *Out
 	r        *Rng
 	env      *netEnv
@@ -459,6 +461,8 @@ func (u *udpCase) isPublicSink(s *udpSink) bool { return !isForbiddenDst(s.addr.
 
 func (u *udpCase) run(caseNo int) {
 	r, out := u.r, u.out
+	runtime.GC() // descriptors of earlier cases that only a finalizer would close must not blur the count
+	u.fd0 = countFDs()
 	u.kt = &keyTable{index: map[string]int{}}
 	u.ev = newEvents()
 	curEvents = u.ev
@@ -595,6 +599,18 @@ func (u *udpCase) run(caseNo int) {
 	if len(u.natPort) != 0 {
 		out.Oracle("C14", "after shutdown %d association(s) were never removed: %v", len(u.natPort), keysOf(u.natPort))
 		out.Oracle("C16", "after shutdown %d association(s) were never reported removed: %v", len(u.natPort), keysOf(u.natPort))
+	}
+	// every outbound socket the handler opened for an association must be closed now (promptly: the
+	// runtime's finalizer would eventually hide a forgotten Close)
+	if u.fd0 > 0 {
+		f1 := countFDs()
+		for dl := time.Now().Add(500 * time.Millisecond); f1 > u.fd0 && time.Now().Before(dl); f1 = countFDs() {
+			time.Sleep(2 * time.Millisecond)
+		}
+		if f1 > u.fd0 {
+			out.Oracle("C14", "%d file descriptors before the case, %d after the handler shut down with %d association(s) alive at that time: their outbound sockets were not closed", u.fd0, f1, live)
+			out.Oracle("C18", "%d file descriptors before the case, %d after the packet handler shut down", u.fd0, f1)
+		}
 	}
 	// stray datagrams: anything a target received that no op accounted for
 	stray := 0
